@@ -275,3 +275,13 @@ Proof.
   unfold pair_mem. intros H. apply existsb_exists in H as ([t g] & HI & E).
   apply andb_true_iff in E as [E1 E2]. apply String.eqb_eq in E1, E2. destruct x; cbn in *; subst. exact HI.
 Qed.
+
+(* ================= package-level state (C18) ================= *)
+(* a write is allowed only inside init() (it runs before any call can start) *)
+Definition globals_ok (writes : list (string * string * string * string * string)) (gos imports : list (string * string))
+           (field_writes : list (string * string)) (per_call_types : list string) : bool :=
+  forallb (fun '(_, fn, _, _, _) => String.eqb fn "init") writes
+  && match gos with [] => true | _ => false end
+  && match imports with [] => true | _ => false end
+  (* fields written through a receiver belong to the per-call objects allocated by newParser / Lexer.Clone *)
+  && forallb (fun '(m, _) => existsb (fun t => String.prefix (t ++ ".") m) per_call_types) field_writes.
